@@ -674,6 +674,16 @@ int gd_uninclude(DIRFILE* D, int fragment_index, int del)
     GD_RETURN_ERROR(D);
   }
 
+  /* the files of the fragments included by this one are deleted, too */
+  if (del)
+    for (j = 0; j < nf; ++j)
+      if (D->fragment[f[j]].protection & GD_PROTECT_FORMAT) {
+        _GD_SetError(D, GD_E_PROTECTED, GD_E_PROTECTED_FORMAT, NULL, 0,
+            D->fragment[f[j]].cname);
+        free(f);
+        GD_RETURN_ERROR(D);
+      }
+
   /* close affected raw fields */
   for (i = 0; i < D->n_entries; ++i)
     if (D->entry[i]->field_type == GD_RAW_ENTRY &&
